@@ -22,6 +22,15 @@ Nothing of the library is used to compute the expectation.
 A violation key names WHAT differed and in WHICH form class it is confined
 (e.g. ``first-line-not-trimmed/all-forms``,
 ``continuation-line-lost/comments=1``), never an input.
+
+"uni" class (extension): every fifth random document and a second enumerated grid
+carry valid Unicode that a careless decoder or line splitter treats differently -
+text that is not in a Unicode normal form (decomposed sequences, singletons, Hangul
+jamo, compatibility characters) and characters whose UTF-8 (cp1252, UTF-16) form
+holds a byte that is a line boundary or a blank in Latin-1 (0x85, 0xA0; 0x0A/0x0D in
+UTF-16).  The oracle is unchanged - the model document, code point for code point -
+and ``uni:<class>:<api>:<form>`` counters (with floors) say which (class x API x
+input form) cells saw such values.
 """
 import io
 import os
@@ -47,7 +56,21 @@ RULE = ('Model documents of 1..4 paragraphs x 1..6 fields: names over policy-val
         'utf-16 - every cell of the form grid sees each encoding, through one of the two kinds, alternating) + a real '
         'binary file, x plain/armour x comments x leading blanks x API (Deb822, iter_paragraphs, Dsc, Changes).  A document '
         'is non-trivial when it has >= 1 multi-line value, or a value starting with ":" or "#", or >= 2 paragraphs; '
-        'distinct by the content of the model document.')
+        'distinct by the content of the model document.  "uni" class: every 5th random document (own profile any / '
+        'latin-1 / cp1252) draws about every second atom of its values from 61 sequences that are valid Unicode but not in '
+        'NFC / NFD / NFKC / NFKD (e + U+0301, A + U+030A, marks in non-canonical order, U+1E9B U+0323, OHM / ANGSTROM / KELVIN '
+        'SIGN, U+037E, U+0387, U+0340, U+0958, CJK compatibility ideographs incl. U+2F800, Hangul jamo sequences and '
+        'precomposed syllables, fi ligature, micro sign, full-width letters/digits, circled/roman numerals, superscripts, '
+        'precomposed Latin) or whose UTF-8 form holds the byte 0x85 (U+0105 U+0445 U+00C5 U+2005 U+0145 U+2045 U+4E05 '
+        'U+1F605 U+0A85) or 0xA0 (U+0420 U+00E0 U+00A0 U+2020 U+3060 U+0820 U+1F4A0 U+0120), whose cp1252 form is 0x85 '
+        '(U+2026) or whose UTF-16 form holds 0x0A / 0x0D / 0x85 (U+010A U+0D0A U+0A0A U+200A U+850A U+0A85); one such '
+        'atom per paragraph is put last on its line (directly before the line end).  Second enumerated grid: every atom x '
+        '{first line, continuation line} x {start, middle, end, whole text of the line} (blank atoms: middle only), six '
+        'per single-paragraph document, grouped by what latin-1 / cp1252 can hold, + per atom a two-paragraph document '
+        'with the atom last before and first after the paragraph boundary.  "uni" documents also get comment lines and a '
+        'Comment: armour header (signature block) carrying such atoms.  All of them go through the same dump -> every '
+        'form -> compare-with-the-model path; the whole document is given as ONE str and as ONE bytes object to Deb822() '
+        '(single paragraphs) and to iter_paragraphs (all), besides lists of lines and file objects.')
 ASSUMPTIONS = [
     'domain: field names are printable ASCII 33..126 without colon, not starting with "#" or "-", distinct case-insensitively '
     'within a paragraph, and not one of the structured fields of Dsc/Changes (files, checksums-*)',
@@ -67,6 +90,17 @@ ASSUMPTIONS = [
     'Dsc/Changes given a text file object with a declared non-UTF-8 encoding are judged like every other form (they used to '
     'return mojibake: _gpg_multivalued.__init__ re-encoded the lines with the file\'s encoding but the parser decoded them as '
     'UTF-8 - repaired in /repo by fix 0288b25, see known_findings.json)',
+    'GUARD (under-demand, "uni" class): Unicode blanks other than space/tab (U+00A0, U+2005, U+200A ...) are generated only '
+    'strictly INSIDE the text of a first line or continuation line, between non-blank characters (at the edges the '
+    'statement\'s "trimmed" / "non-blank text" is silent on them; a document that has one at an edge of a continuation '
+    'line\'s text is not judged); every other "uni" atom is a non-blank, non-line-breaking character and may stand anywhere '
+    'in a value, code point for code point (no normal form is assumed or applied by the oracle - unicodedata is used only '
+    'to CLASSIFY a document for the uni:* counters)',
+    'the uni:<class>:<api>:<form> counters classify a document by its VALUES (not by decorations): not-nfc / not-nfd = the '
+    'value text changes under NFC / NFD, compat = NFKC differs from NFC, byte85 / byteA0 = the UTF-8 form of the values holds '
+    'that byte; uni:filebytes:* = the bytes of the text FILE in its declared encoding hold 0x85 / 0xA0 (8-bit encodings) or '
+    '0x0A / 0x0D / 0x85 inside a character (utf-16).  No floor where the cell is empty by construction: not-nfc x 8-bit text '
+    'file (latin-1 / cp1252 hold no combining marks or singletons), Dsc/Changes x utf-16 text file (unjudged, see below)',
     'GUARD (under-demand): Dsc/Changes on a text file whose declared encoding is not ASCII-compatible (utf-16) are executed on a '
     'sample and only COUNTED (unjudged:gpg-api-on-non-utf8-text-file:*): the gpg-aware classes search the armour markers in the '
     'encoded BYTES, and the quantifier speaks of printable/UTF-8 values; Deb822(f) and iter_paragraphs(f) are judged for utf-16 too',
@@ -96,53 +130,111 @@ DOCS = {'quick': 3000, 'thorough': 160000}      # random documents (TOTAL over s
 UNI_EVERY = 5                                   # one random document in UNI_EVERY is a "uni" document
 
 FLOORS = {
-    # ~50% of the minimum a run on the current tree measures over VERIF_SEED 0..3
-    'quick': {'nontrivial': 1800,
-              'monitors': {'M': 220000, 'M.armour': 125000, 'M.comments': 110000, 'M.lead': 110000,
-                           'M.encfile': 42000, 'M.binfile': 13500},
-              'counters': {'feat:first-trailing-blank': 6900, 'feat:first-starts-colon': 1100,
-                           'feat:first-starts-hash': 1000, 'feat:cont-starts-hash': 2800,
-                           'feat:cont-trailing-blank': 9800, 'feat:cont-keyvalue-shaped': 2400,
-                           'feat:cont-marker-lookalike': 780, 'feat:nonascii': 4600, 'feat:multi-line-value': 6800,
-                           'feat:marker-trailing-blank-or-cr': 23500,
-                           'feat:name-starts-digit': 850, 'feat:name-starts-punct': 2700,
-                           'api:Dsc': 29500, 'api:Changes': 29500, 'api:Deb822': 66000, 'api:iter_paragraphs': 96000,
-                           'dump:str': 450, 'dump:fd_b': 450, 'dump:fd_b_enc': 450, 'dump:fd_t': 450,
-                           'doc:paragraphs>=2': 880,
-                           # real text file objects with a declared encoding / real binary files: a run that never
-                           # exercises them (or only with text every encoding maps identically) is inconclusive
-                           'form:tw': 21000, 'form:tf': 21000,
-                           'enc:utf-8': 6900, 'enc:UTF-8': 6800, 'enc:iso-8859-1': 4200, 'enc:latin-1': 4100,
-                           'enc:cp1252': 10300, 'enc:utf-16': 9800,
-                           'enc-nonascii:utf-8': 3900, 'enc-nonascii:UTF-8': 3900, 'enc-nonascii:iso-8859-1': 1250,
-                           'enc-nonascii:latin-1': 1250, 'enc-nonascii:cp1252': 4500, 'enc-nonascii:utf-16': 5700,
-                           'enc-ascii:utf-16': 3600, 'enc-ascii:cp1252': 5300, 'enc-ascii:iso-8859-1': 2600,
-                           'enc-ascii:latin-1': 2600,
-                           'encfile-api:Deb822': 14500, 'encfile-api:iter_paragraphs': 20000,
-                           'gpgapi-encfile:utf-8': 3900, 'gpgapi-encfile:non-utf-8': 3400}},
+    'quick': {
+        # ~50% of the minimum a run on the current tree measures over VERIF_SEED 0..3
+        'nontrivial': 1900,
+        'monitors': {'M': 230000, 'M.armour': 130000, 'M.binfile': 14000, 'M.comments': 110000, 'M.encfile': 44000,
+                     'M.lead': 110000, 'M.uni': 120000},
+        'counters': {'feat:first-trailing-blank': 7000, 'feat:first-starts-colon': 1000,
+                     'feat:first-starts-hash': 990, 'feat:cont-starts-hash': 2800, 'feat:cont-trailing-blank': 9900,
+                     'feat:cont-keyvalue-shaped': 2400, 'feat:cont-marker-lookalike': 760, 'feat:nonascii': 5800,
+                     'feat:multi-line-value': 7100, 'feat:marker-trailing-blank-or-cr': 24000,
+                     'feat:name-starts-digit': 850, 'feat:name-starts-punct': 2700, 'api:Dsc': 31000,
+                     'api:Changes': 31000, 'api:Deb822': 67000, 'api:iter_paragraphs': 98000, 'dump:str': 490,
+                     'dump:fd_b': 490, 'dump:fd_b_enc': 490, 'dump:fd_t': 490, 'doc:paragraphs>=2': 920,
+                     'form:tw': 22000, 'form:tf': 22000, 'enc:utf-8': 7100, 'enc:UTF-8': 7000,
+                     'enc:iso-8859-1': 4500, 'enc:latin-1': 4400, 'enc:cp1252': 11000, 'enc:utf-16': 10000,
+                     'enc-nonascii:utf-8': 4400, 'enc-nonascii:UTF-8': 4400, 'enc-nonascii:iso-8859-1': 1700,
+                     'enc-nonascii:latin-1': 1800, 'enc-nonascii:cp1252': 6100, 'enc-nonascii:utf-16': 6400,
+                     'enc-ascii:utf-16': 3300, 'enc-ascii:cp1252': 4900, 'enc-ascii:iso-8859-1': 2500,
+                     'enc-ascii:latin-1': 2400, 'encfile-api:Deb822': 14000, 'encfile-api:iter_paragraphs': 20000,
+                     'gpgapi-encfile:utf-8': 4100, 'gpgapi-encfile:non-utf-8': 6100, 'doc:uni': 360,
+                     'feat:uni-armour-comment-header': 150, 'feat:uni-byte85': 270, 'feat:uni-byteA0': 280,
+                     'feat:uni-compat': 300, 'feat:uni-cont-line-ends-in-byte-85': 160,
+                     'feat:uni-cont-line-ends-in-byte-A0': 190, 'feat:uni-cont-line-inner-unicode-blank': 280,
+                     'feat:uni-cont-line-not-nfc': 700, 'feat:uni-first-line-ends-in-byte-85': 140,
+                     'feat:uni-first-line-ends-in-byte-A0': 160, 'feat:uni-first-line-inner-unicode-blank': 170,
+                     'feat:uni-first-line-not-nfc': 510, 'feat:uni-not-nfc': 180, 'feat:uni-not-nfd': 1200,
+                     'uni:filebytes:8bit:85:Changes': 27, 'uni:filebytes:8bit:85:Deb822': 54,
+                     'uni:filebytes:8bit:85:Dsc': 27, 'uni:filebytes:8bit:85:iter_paragraphs': 100,
+                     'uni:filebytes:8bit:A0:Changes': 83, 'uni:filebytes:8bit:A0:Deb822': 160,
+                     'uni:filebytes:8bit:A0:Dsc': 83, 'uni:filebytes:8bit:A0:iter_paragraphs': 340,
+                     'uni:filebytes:utf-16:0A-0D-85:Deb822': 180,
+                     'uni:filebytes:utf-16:0A-0D-85:iter_paragraphs': 390}},
+    'thorough': {
+        # ~50% of what a thorough run on the current tree measures (seed 0)
+        'nontrivial': 77000,
+        'monitors': {'M': 8100000, 'M.armour': 4300000, 'M.binfile': 500000, 'M.comments': 4000000,
+                     'M.encfile': 1500000, 'M.lead': 4000000, 'M.uni': 5400000},
+        'counters': {'feat:first-trailing-blank': 360000, 'feat:first-starts-colon': 56000,
+                     'feat:first-starts-hash': 51000, 'feat:cont-starts-hash': 140000,
+                     'feat:cont-trailing-blank': 520000, 'feat:cont-keyvalue-shaped': 120000,
+                     'feat:cont-marker-lookalike': 39000, 'feat:nonascii': 290000, 'feat:multi-line-value': 350000,
+                     'feat:marker-trailing-blank-or-cr': 820000, 'feat:name-starts-digit': 46000,
+                     'feat:name-starts-punct': 140000, 'api:Dsc': 1000000, 'api:Changes': 1000000,
+                     'api:Deb822': 2200000, 'api:iter_paragraphs': 3700000, 'dump:str': 20000, 'dump:fd_b': 20000,
+                     'dump:fd_b_enc': 20000, 'dump:fd_t': 20000, 'doc:paragraphs>=2': 45000, 'form:tw': 750000,
+                     'form:tf': 750000, 'enc:utf-8': 250000, 'enc:UTF-8': 250000, 'enc:iso-8859-1': 120000,
+                     'enc:latin-1': 120000, 'enc:cp1252': 380000, 'enc:utf-16': 360000, 'enc-nonascii:utf-8': 200000,
+                     'enc-nonascii:UTF-8': 200000, 'enc-nonascii:iso-8859-1': 71000, 'enc-nonascii:latin-1': 70000,
+                     'enc-nonascii:cp1252': 270000, 'enc-nonascii:utf-16': 290000, 'enc-ascii:utf-16': 65000,
+                     'enc-ascii:cp1252': 94000, 'enc-ascii:iso-8859-1': 47000, 'enc-ascii:latin-1': 46000,
+                     'encfile-api:Deb822': 450000, 'encfile-api:iter_paragraphs': 730000,
+                     'gpgapi-encfile:utf-8': 130000, 'gpgapi-encfile:non-utf-8': 170000, 'doc:uni': 16000,
+                     'feat:uni-armour-comment-header': 7200, 'feat:uni-byte85': 13000, 'feat:uni-byteA0': 14000,
+                     'feat:uni-compat': 15000, 'feat:uni-cont-line-ends-in-byte-85': 8500,
+                     'feat:uni-cont-line-ends-in-byte-A0': 11000, 'feat:uni-cont-line-inner-unicode-blank': 16000,
+                     'feat:uni-cont-line-not-nfc': 36000, 'feat:uni-first-line-ends-in-byte-85': 6800,
+                     'feat:uni-first-line-ends-in-byte-A0': 8900, 'feat:uni-first-line-inner-unicode-blank': 10000,
+                     'feat:uni-first-line-not-nfc': 25000, 'feat:uni-not-nfc': 9000, 'feat:uni-not-nfd': 59000,
+                     'uni:filebytes:8bit:85:Changes': 1400, 'uni:filebytes:8bit:85:Deb822': 2900,
+                     'uni:filebytes:8bit:85:Dsc': 1400, 'uni:filebytes:8bit:85:iter_paragraphs': 6000,
+                     'uni:filebytes:8bit:A0:Changes': 5000, 'uni:filebytes:8bit:A0:Deb822': 10000,
+                     'uni:filebytes:8bit:A0:Dsc': 5000, 'uni:filebytes:8bit:A0:iter_paragraphs': 19000,
+                     'uni:filebytes:utf-16:0A-0D-85:Deb822': 11000,
+                     'uni:filebytes:utf-16:0A-0D-85:iter_paragraphs': 21000}},
 }
-FLOORS['thorough'] = {
-    # ~50% of what a thorough run on the current tree measures (seed 0)
-    'nontrivial': 78000,
-    'monitors': {'M': 8000000, 'M.armour': 4200000, 'M.comments': 4000000, 'M.lead': 4000000,
-                 'M.encfile': 1400000, 'M.binfile': 500000},
-    'counters': {'feat:first-trailing-blank': 360000, 'feat:first-starts-colon': 59000, 'feat:first-starts-hash': 53000,
-                 'feat:cont-starts-hash': 150000, 'feat:cont-trailing-blank': 530000, 'feat:cont-keyvalue-shaped': 130000,
-                 'feat:cont-marker-lookalike': 40000, 'feat:nonascii': 250000, 'feat:multi-line-value': 340000,
-                 'feat:marker-trailing-blank-or-cr': 820000,
-                 'feat:name-starts-digit': 46000, 'feat:name-starts-punct': 140000,
-                 'api:Dsc': 1000000, 'api:Changes': 1000000, 'api:Deb822': 2200000, 'api:iter_paragraphs': 3700000,
-                 'dump:str': 20000, 'dump:fd_b': 20000, 'dump:fd_b_enc': 20000, 'dump:fd_t': 20000,
-                 'doc:paragraphs>=2': 45000,
-                 'form:tw': 720000, 'form:tf': 720000,
-                 'enc:utf-8': 250000, 'enc:UTF-8': 250000, 'enc:iso-8859-1': 110000, 'enc:latin-1': 110000,
-                 'enc:cp1252': 340000, 'enc:utf-16': 360000,
-                 'enc-nonascii:utf-8': 180000, 'enc-nonascii:UTF-8': 180000, 'enc-nonascii:iso-8859-1': 54000,
-                 'enc-nonascii:latin-1': 54000, 'enc-nonascii:cp1252': 210000, 'enc-nonascii:utf-16': 270000,
-                 'enc-ascii:utf-16': 81000, 'enc-ascii:cp1252': 110000, 'enc-ascii:iso-8859-1': 57000,
-                 'enc-ascii:latin-1': 57000,
-                 'encfile-api:Deb822': 470000, 'encfile-api:iter_paragraphs': 760000,
-                 'gpgapi-encfile:utf-8': 130000, 'gpgapi-encfile:non-utf-8': 70000}}
+
+# uni:<class>:<api>:<form> floors (same rule), one number per form GROUP: the six in-memory containers, the real binary
+# file, text file utf-8 (tw and tf each), text file 8-bit (tw and tf each), text file utf-16 (tw and tf each).  0 = the
+# cell is empty by construction (see ASSUMPTIONS).  Without them a run whose "uni" documents never reach some
+# (class x API x input form) cell would be reported as held.
+UNI_CLASSES = ('not-nfc', 'not-nfd', 'compat', 'byte85', 'byteA0')
+UNI_FORM_GROUPS = (('str', 'bytes', 'lines_nl', 'lines_nonl', 'textio', 'bytesio'), ('binfile',), ('tw:utf-8', 'tf:utf-8'),
+                   ('tw:8bit', 'tf:8bit'), ('tw:utf-16', 'tf:utf-16'))
+UNI_FLOORS = {
+    'quick': {
+        'not-nfc': {'Deb822': (570, 280, 140, 0, 140), 'iter_paragraphs': (1000, 520, 260, 0, 260),
+                    'Dsc': (280, 140, 71, 0, 0), 'Changes': (280, 140, 71, 0, 0)},
+        'not-nfd': {'Deb822': (3900, 1900, 990, 1100, 990), 'iter_paragraphs': (6900, 3400, 1700, 1800, 1700),
+                    'Dsc': (1900, 990, 490, 580, 0), 'Changes': (1900, 990, 490, 580, 0)},
+        'compat': {'Deb822': (900, 450, 220, 150, 220), 'iter_paragraphs': (1600, 830, 410, 250, 410),
+                   'Dsc': (450, 220, 110, 75, 0), 'Changes': (450, 220, 110, 75, 0)},
+        'byte85': {'Deb822': (750, 370, 180, 91, 180), 'iter_paragraphs': (1400, 740, 370, 190, 370),
+                   'Dsc': (370, 180, 94, 45, 0), 'Changes': (370, 180, 94, 45, 0)},
+        'byteA0': {'Deb822': (780, 390, 190, 120, 190), 'iter_paragraphs': (1500, 770, 380, 230, 380),
+                   'Dsc': (390, 190, 98, 64, 0), 'Changes': (390, 190, 98, 64, 0)},
+    },
+    'thorough': {
+        'not-nfc': {'Deb822': (29000, 14000, 7200, 0, 7200), 'iter_paragraphs': (50000, 25000, 12000, 0, 12000),
+                    'Dsc': (14000, 7200, 3600, 0, 0), 'Changes': (14000, 7200, 3600, 0, 0)},
+        'not-nfd': {'Deb822': (170000, 87000, 43000, 46000, 43000), 'iter_paragraphs': (320000, 160000, 81000, 82000, 81000),
+                    'Dsc': (87000, 43000, 21000, 23000, 0), 'Changes': (87000, 43000, 21000, 23000, 0)},
+        'compat': {'Deb822': (49000, 24000, 12000, 8000, 12000), 'iter_paragraphs': (86000, 43000, 21000, 13000, 21000),
+                   'Dsc': (24000, 12000, 6200, 4000, 0), 'Changes': (24000, 12000, 6200, 4000, 0)},
+        'byte85': {'Deb822': (41000, 20000, 10000, 5400, 10000), 'iter_paragraphs': (75000, 37000, 18000, 10000, 18000),
+                   'Dsc': (20000, 10000, 5100, 2700, 0), 'Changes': (20000, 10000, 5100, 2700, 0)},
+        'byteA0': {'Deb822': (45000, 22000, 11000, 7100, 11000), 'iter_paragraphs': (81000, 40000, 20000, 12000, 20000),
+                   'Dsc': (22000, 11000, 5600, 3500, 0), 'Changes': (22000, 11000, 5600, 3500, 0)},
+    },
+}
+for _tier, _table in UNI_FLOORS.items():
+    for _cls, _apis in _table.items():
+        for _api, _row in _apis.items():
+            for _forms, _floor in zip(UNI_FORM_GROUPS, _row):
+                if _floor:
+                    for _f in _forms:
+                        FLOORS[_tier]['counters']['uni:%s:%s:%s' % (_cls, _api, _f)] = _floor
 
 CONTAINERS = ('str', 'bytes', 'lines_nl', 'lines_nonl', 'textio', 'bytesio')
 # real file objects.  'tw:<enc>' = io.TextIOWrapper(io.BytesIO(text.encode(enc)), encoding=enc),
@@ -649,7 +741,8 @@ def diff(expected, got):
                 kind = 'continuation-line-invented'
             else:
                 kind = 'continuation-line-altered'
-            return (kind, 'paragraph %d field %r: expected %r, got %r' % (pi, k, ev, gv))
+            # ascii(): values that differ only in code points (normalisation) print alike otherwise
+            return (kind, 'paragraph %d field %r: expected %a, got %a' % (pi, k, ev, gv))
     return None
 
 
@@ -961,7 +1054,7 @@ def evaluate(ctx, case, record=True):
                             closer()
                         res = diff(expected, got)
                         if res is not None:
-                            failures.setdefault(res[0], []).append((form, '%s; input lines %r' % (res[1], lines)))
+                            failures.setdefault(res[0], []).append((form, '%s; input lines %a' % (res[1], lines)))
     for kind, fl in failures.items():
         forms = [f for f, _ in fl]
         key = '%s/%s' % (kind, scope(forms, executed))
